@@ -5,12 +5,13 @@ import random
 from vf import Inconclusive, parallel, require_clean, validate_traces, trace_slice, vfj_lines, b2s
 
 CLAIM = {
-    "text": "TLC exhaustively checks implementation-shaped models of both follow readers (FollowNotify: read-until-empty, select over the two coalescing 1-buffered signals, fsnotify/watcher goroutines, the delete branch as repaired; FollowPoll: read attempts, stat, size vs readBytes, a re-open block that replaces the handle - a new handle stands at offset 0 - and seeks it to readBytes or restarts; 1, 2, 3 and 5 read attempts per round, also on a file that stays in place and merely grew between the last read attempt and the stat, with the law that the reader's count is the offset of the handle it reads from; controls: a resume-seek that does not reach the new handle, or resumes at the stat'ed size, is refuted) against the abstract Follow specification for every interleaving of up to 3-4 appends, 1-2 removals-after-drain and 1-2 re-creations with all reader/watcher steps x {reopen} x {tail}: delivered stream always a prefix of the expected one (no loss, duplication, reordering), no EOF while the file exists, the poll side condition in its exact and its observable form, refinement, no lost wake-up, and liveness (quiet environment ~> everything delivered / stream ended) under weak fairness. Histories enumerated by TLC with the specification's expected stream are executed on real files with the real followreader.New (notify and poll), the harness placing Read calls before/while/after the operations; for the poller TLC also enumerates the PHASE of the polling round at which every operation lands (after the k-th empty read attempt, k = ReadAttempts being the window before the stat; FollowPoll_Gen) and the harness imposes it by timing on a free-running reader with PollDelay/ReadAttempts set from the vector, and end to end with the production 5 x 250 ms; every execution, seeded random multi-cycle histories and end-to-end runs through batchers.TailFilesToChan and `rare filter -f/-F` are recorded and validated by TLC against Follow.tla.",
+    "text": "TLC exhaustively checks implementation-shaped models of both follow readers (FollowNotify: read-until-empty, select over the two coalescing 1-buffered signals, fsnotify/watcher goroutines, the delete branch as repaired; FollowPoll: read attempts, stat, size vs readBytes, a re-open block that replaces the handle - a new handle stands at offset 0 - and seeks it to readBytes or restarts; 1, 2, 3 and 5 read attempts per round, also on a file that stays in place and merely grew between the last read attempt and the stat, with the law that the reader's count is the offset of the handle it reads from; controls: a resume-seek that does not reach the new handle, or resumes at the stat'ed size, is refuted) against the abstract Follow specification for every interleaving of up to 3-4 appends, 1-2 removals-after-drain and 1-2 re-creations with all reader/watcher steps x {reopen} x {tail}: delivered stream always a prefix of the expected one (no loss, duplication, reordering), no EOF while the file exists, the poll side condition in its exact and its observable form, refinement, no lost wake-up, and liveness (quiet environment ~> everything delivered / stream ended) under weak fairness. Histories enumerated by TLC with the specification's expected stream are executed on real files with the real followreader.New (notify and poll), the harness placing Read calls before/while/after the operations; for the poller TLC also enumerates the PHASE of the polling round at which every operation lands (after the k-th empty read attempt, k = ReadAttempts being the window before the stat; FollowPoll_Gen) and the harness imposes it by timing on a free-running reader with PollDelay/ReadAttempts set from the vector, and end to end with the production 5 x 250 ms; every execution, seeded random multi-cycle histories and end-to-end runs through batchers.TailFilesToChan and `rare filter -f/-F` are recorded and validated by TLC against Follow.tla. The followed path is the file's own name or a symbolic link to it (same / another directory; Follow.tla's file at the path is what the path leads to - controls: a poller that looks at the link itself, a watcher that waits for the link's name, both refuted), and the directory has other entries whose names end with / begin with the followed name and are created, appended to, renamed and removed in every interleaving (Follow!EnvOther; law OthersInvisible; controls: name tests by suffix / by prefix / none refuted: the removal of a sibling ends a plain follow); both on real files in every replay. FollowBatch.tla carries the property to the END of the pipeline - the time-flushed batches (tailBatcher -> syncReaderToBatcherWithTimeFlush) in the hands of a consumer that holds them: backing arrays of the batches, flushes full / timer / final, laws HeldExact, HeldStable, StreamExact, MustFlush, FinalExact; controls: a recycled backing array after a timer flush / a full flush refuted; burst schedules enumerated by TLC (bursts of several lines, pauses longer than the flush interval) run on the real follow readers under the real reader loop with a holding consumer, also with the production interval through TailFilesToChan and `rare filter -f --batch N`, recorded and validated against FollowBatch_Trace.",
     "note": "Bounded: exhaustive only within the listed history bounds; real timing is sampled, not enumerated, for the inotify reader (each history is executed a few times; which signal select takes is up to the Go runtime); for the poller the phase of the round is imposed by sleeping (20 ms delays, operations mid-sleep), so a phase can be missed under load - that costs coverage, never a false alarm, and the hit rate is measured (re-opens of the path seen through inotify IN_OPEN); the few microseconds between the stat and the open cannot be targeted (model only). Liveness on the real code means 'within 10 s, repeated on re-run'. Trusted: fsnotify/inotify (modelled as in-order events, write/create dropped when the path is absent), the OS file system, TLC. Rename-based rotation, truncation and removal of undelivered data are outside the property's histories and not checked.",
     "technique": "TLA+ refinement + liveness model checking (TLC) + model-history replay on real files + trace validation",
 }
 
-NOTIFY_INV = "TypeOK PrefixOK NoEarlyEnd NoDomLoss NoLostWakeup"
+NOTIFY_INV = "TypeOK PrefixOK NoEarlyEnd NoDomLoss NoLostWakeup OthersInvisible"
+BATCH_INV = "BTypeOK HeldExact StreamExact PartitionOK OpenExact MustFlush FinalExact"
 POLL_INV = "TypeOK PrefixOK NoEarlyEnd DomImplies PrefixOKP NoEarlyEndP HandleOK InPlaceExact"
 
 
@@ -18,34 +19,51 @@ def b(x):
     return "TRUE" if x else "FALSE"
 
 
-def notify_cfg(reopen, tail, apps, cycles, lens="{1, 2}", branch="samefile", invs=NOTIFY_INV, props="Refines Live", initlen=1):
+def notify_cfg(reopen, tail, apps, cycles, lens="{1, 2}", branch="samefile", invs=NOTIFY_INV, props="Refines Live", initlen=1,
+               name_filter="base", path="file", resolve=True, sibs="{}", others=0):
     return ("SPECIFICATION Spec\nCONSTANTS Reopen = %s\n TailMode = %s\n InitLen = %d\n AppLens = %s\n MaxAppends = %d\n"
-            " MaxRemoves = %d\n MaxCreates = %d\n BufSize = 2\n DeleteBranch = \"%s\"\nINVARIANTS %s\n%sCHECK_DEADLOCK FALSE\n" % (
-                b(reopen), b(tail), initlen, lens, apps, cycles, cycles, branch, invs,
+            " MaxRemoves = %d\n MaxCreates = %d\n BufSize = 2\n DeleteBranch = \"%s\"\n NameFilter = \"%s\"\n PathKind = \"%s\"\n"
+            " Resolve = %s\n Sibs = %s\n MaxOthers = %d\nINVARIANTS %s\n%sCHECK_DEADLOCK FALSE\n" % (
+                b(reopen), b(tail), initlen, lens, apps, cycles, cycles, branch, name_filter, path, b(resolve), sibs, others, invs,
                 ("PROPERTIES %s\n" % props) if props else ""))
 
 
 def poll_cfg(reopen, tail, apps, cycles, lens="{1, 2}", attempts=2, invs=POLL_INV, props="Refines Live LiveP", initlen=1,
-             resume="readBytes", buf=2):
+             resume="readBytes", buf=2, path="file", stat="stat", linklen=1):
     return ("SPECIFICATION Spec\nCONSTANTS Reopen = %s\n TailMode = %s\n InitLen = %d\n AppLens = %s\n MaxAppends = %d\n"
-            " MaxRemoves = %d\n MaxCreates = %d\n BufSize = %d\n ReadAttempts = %d\n Resume = \"%s\"\nINVARIANTS %s\n%sCHECK_DEADLOCK FALSE\n" % (
-                b(reopen), b(tail), initlen, lens, apps, cycles, cycles, buf, attempts, resume, invs,
+            " MaxRemoves = %d\n MaxCreates = %d\n BufSize = %d\n ReadAttempts = %d\n Resume = \"%s\"\n PathKind = \"%s\"\n"
+            " StatMode = \"%s\"\n LinkLen = %d\nINVARIANTS %s\n%sCHECK_DEADLOCK FALSE\n" % (
+                b(reopen), b(tail), initlen, lens, apps, cycles, cycles, buf, attempts, resume, path, stat, linklen, invs,
                 ("PROPERTIES %s\n" % props) if props else ""))
+
+
+def batch_cfg(pbatch, maxlines, lens="{1, 2, 3}", plain=True, reuse="never", invs=BATCH_INV, props="HeldStable BTerminates"):
+    """FollowBatch: the end of the follow pipeline (time-flushed batches held by the consumer)."""
+    return ("SPECIFICATION BSpec\nCONSTANTS PBatch = %d\n BurstLens = %s\n MaxLines = %d\n Plain = %s\n ReuseOn = \"%s\"\n"
+            "INVARIANTS %s\n%sCHECK_DEADLOCK FALSE\n" % (pbatch, lens, maxlines, b(plain), reuse, invs,
+                                                        ("PROPERTIES %s\n" % props) if props else ""))
+
+
+def bgen_cfg(pbatch, maxlines, lens, plain):
+    return ("INIT GInit\nNEXT GNext\nCONSTANTS PBatch = %d\n BurstLens = %s\n MaxLines = %d\n Plain = %s\n ReuseOn = \"never\"\n"
+            "INVARIANTS GLaws Dump\nCHECK_DEADLOCK FALSE\n" % (pbatch, lens, maxlines, b(plain)))
 
 
 def pgen_cfg(reopen, tail, attempts, buf, apps, cycles, lens, rounds=1):
     """FollowPoll_Gen: histories with the phase of the poller's round at which every operation lands."""
     return ("INIT GInit\nNEXT GNext\nCONSTANTS Reopen = %s\n TailMode = %s\n InitLen = 2\n AppLens = %s\n MaxAppends = %d\n"
             " MaxRemoves = %d\n MaxCreates = %d\n BufSize = %d\n ReadAttempts = %d\n Resume = \"readBytes\"\n MaxRounds = %d\n"
+            " PathKind = \"file\"\n StatMode = \"stat\"\n LinkLen = 1\n"
             "INVARIANTS GenAgrees GHandleOK Dump\nCHECK_DEADLOCK FALSE\n" % (
                 b(reopen), b(tail), lens, apps, cycles, cycles, buf, attempts, rounds))
 
 
-def gen_cfg(poll, reopen, tail, apps, cycles, lens, starts=1, settles=1, drains=3):
+def gen_cfg(poll, reopen, tail, apps, cycles, lens, starts=1, settles=1, drains=3, sibs="{}", others=0):
     return ("INIT GInit\nNEXT GNext\nCONSTANTS Poll = %s\n Reopen = %s\n TailMode = %s\n InitLen = 2\n AppLens = %s\n"
             " MaxAppends = %d\n MaxRemoves = %d\n MaxCreates = %d\n MaxStarts = %d\n MaxSettles = %d\n MaxDrains = %d\n"
+            " Sibs = %s\n MaxOthers = %d\n"
             "INVARIANTS Dump\nPROPERTIES GSafe\nCHECK_DEADLOCK FALSE\n" % (
-                b(poll), b(reopen), b(tail), lens, apps, cycles, cycles, starts, settles, drains))
+                b(poll), b(reopen), b(tail), lens, apps, cycles, cycles, starts, settles, drains, sibs, others))
 
 
 CONTROLS = [
@@ -62,6 +80,29 @@ CONTROLS = [
      poll_cfg(True, False, 3, 0, attempts=2, resume="size", invs="PrefixOK", props=""), "PrefixOK"),
     ("FollowPoll", "control (reachability): a file that stays in place does go through the re-open block",
      poll_cfg(True, False, 2, 0, attempts=3, invs="NeverReopensInPlace", props=""), "NeverReopensInPlace"),
+    # other entries of the directory: the followed file STAYS IN PLACE, a sibling is removed
+    ("FollowNotify", "control: a name test by suffix takes the removal of a sibling (webapp.log next to app.log) for the end of a plain follow",
+     notify_cfg(False, False, 1, 0, lens="{1}", name_filter="suffix", sibs='{"suf", "pre"}', others=1, invs="NoEarlyEnd", props=""), "NoEarlyEnd"),
+    ("FollowNotify", "control: a name test by prefix lets events of app.log.1 through",
+     notify_cfg(True, False, 1, 1, lens="{1}", name_filter="prefix", sibs='{"suf", "pre"}', others=1, invs="OthersInvisible", props=""), "OthersInvisible"),
+    ("FollowNotify", "control: no name test at all",
+     notify_cfg(False, False, 1, 0, lens="{1}", name_filter="any", sibs='{"oth"}', others=1, invs="NoEarlyEnd", props=""), "NoEarlyEnd"),
+    # the followed path is a symbolic link
+    ("FollowNotify", "control: watching the link's directory for the link's name loses every append to the file (same directory) - the repaired defect",
+     notify_cfg(True, False, 2, 0, lens="{1}", path="link-same", resolve=False, invs="NoLostWakeup", props=""), "NoLostWakeup"),
+    ("FollowNotify", "control: ... (the file lives in another directory)",
+     notify_cfg(False, False, 2, 0, lens="{1}", path="link-other", resolve=False, invs="NoLostWakeup", props=""), "NoLostWakeup"),
+    ("FollowPoll", "control: a look at the link itself (lstat) takes a link shorter than what was delivered for a re-created file - the whole file again after a quiet round",
+     poll_cfg(True, False, 2, 0, initlen=2, path="link", stat="lstat", linklen=1, invs="PrefixOK", props=""), "PrefixOK"),
+    # the end of the pipeline: batches held by the consumer
+    ("FollowBatch", "control: a time-flushed partial batch that keeps its backing array is overwritten by the lines that follow",
+     batch_cfg(3, 5, reuse="timer", invs="HeldExact", props=""), "HeldExact"),
+    ("FollowBatch", "control: a full batch that keeps its backing array",
+     batch_cfg(2, 5, reuse="full", invs="StreamExact", props=""), "StreamExact"),
+    ("FollowBatch", "control (reachability): lines of a quiet stream can wait in the open batch",
+     batch_cfg(3, 4, invs="NothingPending", props=""), "NothingPending"),
+    ("FollowBatch", "control (reachability): a time-flushed partial batch is followed by more lines",
+     batch_cfg(3, 4, invs="NoTimerThenMore", props=""), "NoTimerThenMore"),
 ]
 
 
@@ -117,6 +158,21 @@ def inplace_stat(v):
     return False
 
 
+def sib_sig(v):
+    """class of a history with sibling activity: what happens to which sibling, after which operations on the followed file."""
+    out, seen = [], []
+    for st in v["steps"]:
+        if st["op"] == "other":
+            out.append("%s-%s@%s" % (st["what"], st["name"], "+".join(seen[-2:]) or "start"))
+        elif st["op"] != "settle":
+            seen.append(st["op"])
+    return ",".join(out)
+
+
+def burst_sig(v):
+    return ",".join("%s%s%s" % (st["op"][0], st.get("n", ""), "L" if st.get("long") else "") for st in v["steps"])
+
+
 def stratified(rng, vs, n, key):
     """n vectors, spread evenly over the classes given by key (round robin over shuffled classes)."""
     groups = {}
@@ -158,6 +214,9 @@ def check(run):
         "plain follow + poll: the end of the stream is demanded only while the path stays empty (a poller cannot see a removal that was followed by a re-creation); plain follow + inotify: always",
         "liveness on the real code: expected bytes within 10 s; an overrun counts only when it repeats on re-run of the same history",
         "timing relative to the poller's round is imposed by timing (PollDelay 20 ms, operations in the middle of the chosen sleep; 250 ms end to end): the expectation does not depend on the phase, a missed phase only costs coverage (measured: b1_phase_stat_window_in_place)",
+        "a followed path that is a symbolic link: the link itself stays (appends, removal and re-creation act on the file it leads to); retargeting a link is not modelled",
+        "siblings of the followed path are regular files in the directory of the path (and, for a link, of the file) named <x><name> / <name><x> / unrelated; they are never renamed onto the followed name",
+        "end of the pipeline: whole lines, one write per burst; when a partial batch surfaces is demanded only where the pause is controlled (reader loop with a flush interval chosen by the harness, pause = 3 intervals measured from the moment the loop is back in Read with everything delivered); with the production interval only exactness of what the held batches read, and completeness after the end of the stream, are demanded - no timer value enters a verdict",
         "not covered: rename-based rotation, truncation, removal of a file with undelivered data, a path that does not exist when following starts",
     ]
     run.build_harness()
@@ -185,7 +244,25 @@ def check(run):
     if not quick:
         jobs.append(("FollowNotify", "notify reopen apps=6 lens{1,2,3}", notify_cfg(True, False, 6, 1, lens="{1, 2, 3}"), False))
         jobs.append(("FollowPoll", "poll reopen apps=6 lens{1,2,3} attempts=5", poll_cfg(True, False, 6, 1, lens="{1, 2, 3}", attempts=5, initlen=3), False))
+    # other entries of the watched directory (siblings whose names end with / begin with the followed name are created,
+    # appended to, renamed among themselves, removed) in every interleaving with the history of the followed file
+    for reopen, a, cy, o in ((False, 1, 1, 2), (True, 1, 1, 2)) if quick else ((False, 3, 1, 2), (True, 2, 1, 2), (True, 1, 2, 2)):
+        jobs.append(("FollowNotify", "notify reopen=%s siblings apps=%d cycles=%d others=%d" % (reopen, a, cy, o),
+                     notify_cfg(reopen, False, a, cy, lens="{1}", sibs='{"suf", "pre"}' if cy < 2 else '{"suf", "pre", "oth"}', others=o), False))
+    # the followed path is a symbolic link (the code follows what it leads to: Resolve; the poller stats through it)
+    jobs.append(("FollowNotify", "notify reopen link-other", notify_cfg(True, False, 2 if quick else 3, 1, path="link-other", lens="{1}"), False))
+    jobs.append(("FollowPoll", "poll reopen link", poll_cfg(True, False, 3, 1, path="link", linklen=1), False))
+    jobs.append(("FollowPoll", "poll plain link", poll_cfg(False, False, 2, 1, path="link", linklen=1), False))
+    # the end of the pipeline: time-flushed batches in the hands of the consumer
+    for pb, ml, plain in ((3, 5, True), (2, 4, True)) if quick else ((3, 8, True), (2, 7, True), (4, 8, False), (1, 5, True)):
+        jobs.append(("FollowBatch", "batches size=%d lines<=%d plain=%s" % (pb, ml, plain), batch_cfg(pb, ml, plain=plain), pb == 2))
     gens = [(poll, reopen, tail) for poll in (False, True) for reopen in (True, False) for tail in (False, True)]
+    # histories with sibling activity (Follow!EnvOther) for the inotify reader
+    sgens = [(False, False), (False, True)] if quick else [(False, False), (False, True), (True, True)]
+    # burst schedules for the end of the pipeline: (batch size, max lines, burst lengths, plain)
+    bgens = [(3, 7, "{1, 2, 3}", True), (2, 5, "{1, 2}", False), (50, 5, "{1, 3}", False)]
+    if not quick:
+        bgens += [(4, 9, "{1, 2, 3}", True), (2, 7, "{1, 2, 3}", True)]
     # in plain follow the lengths of the appends play no role: one length keeps the generator small
     glens = lambda g: "{1, 2}" if (g[0] and g[1]) or not quick else "{1}"
     # FollowPoll_Gen: (reopen, tail, ReadAttempts, BufSize, appends, cycles, lengths, rounds)
@@ -206,14 +283,22 @@ def check(run):
     pool += [lambda g=g: run.tlc("FollowPoll_Gen", pgen_cfg(*g), workers=W, timeout=1800,
                                  label="FollowPoll_Gen reopen=%s tail=%s attempts=%d buf=%d apps=%d cycles=%d lens=%s rounds=%d" % g)
              for g in pgens]
-    allres = parallel(pool, 6 if quick else 3)
+    pool += [lambda g=g: run.tlc("Follow_Gen", gen_cfg(g[0], g[1], False, 1 if quick else 2, 1, "{1}", settles=0, drains=2,
+                                                       sibs='{"suf", "pre"}', others=2 if not (quick and g[1]) else 1),
+                                 workers=W, timeout=1800, label="Follow_Gen siblings poll=%s reopen=%s" % g) for g in sgens]
+    pool += [lambda g=g: run.tlc("FollowBatch_Gen", bgen_cfg(*g), workers=W, timeout=1800,
+                                 label="FollowBatch_Gen size=%d lines<=%d lens=%s plain=%s" % g) for g in bgens]
+    allres = parallel(pool, 3)      # at most 3 (quick) / 6 (thorough) TLC workers at a time
     n1, n2, n3 = len(jobs), len(jobs) + len(gens), len(jobs) + len(gens) + len(CONTROLS)
-    res, gres, cres, g2, pres = allres[:n1], allres[n1:n2], allres[n2:n3], allres[n3], allres[n3 + 1:]
+    n4 = n3 + 1 + len(pgens)
+    res, gres, cres, g2, pres = allres[:n1], allres[n1:n2], allres[n2:n3], allres[n3], allres[n3 + 1:n4]
+    sres, bres = allres[n4:n4 + len(sgens)], allres[n4 + len(sgens):]
     for j, r in res:
         require_clean(run, r, j[1])
         if j[3]:
             names = ("Append1", "Remove1", "Create1", "KDeq", "WSig", "RRead", "RSelW", "RSelD", "RReopen",
-                     "PRead", "PStat", "POpen")
+                     "PRead", "PStat", "POpen", "Burst", "Pause", "Lag", "Remove", "Release", "BScan", "BAppend",
+                     "FlushFull", "FlushTimer", "NoFlush", "FlushFinal")
             zero = [a for a, (n, _) in r.coverage.items() if n == 0 and a.split(".")[1] in names]
             if zero:
                 raise Inconclusive("vacuous model: actions never taken: %s" % zero)
@@ -248,8 +333,40 @@ def check(run):
         raise Inconclusive("two-cycle generator produced only %d suitable histories" % len(both))
     chosen += rng.sample(both, min(len(both), 60 if quick else 600))
     chosen += rng.sample(vs2, min(len(vs2), 30 if quick else 600))
+    # histories with sibling activity, spread over the classes (which sibling, what happens to it, where)
+    stotal = 0
+    for g, r in zip(sgens, sres):
+        if r.violated or r.errors:
+            raise Inconclusive("sibling generator failed: %s" % r.out[-2000:])
+        vs = [v for v in vfj_lines(r.out) if any(st["op"] == "other" for st in v["steps"])
+              and any(st["op"] == "drain" for st in v["steps"][next(i for i, st in enumerate(v["steps"]) if st["op"] == "other"):])]
+        stotal += len(vs)
+        if len(vs) < 200:
+            raise Inconclusive("sibling generator produced only %d histories for %s" % (len(vs), g))
+        chosen += stratified(rng, vs, 70 if quick else 600, sib_sig)
+    total += stotal
+    run.cov["b1_sibling_histories_enumerated"] = stotal
     with open(vec_path, "w") as f:
         for v in chosen:
+            f.write(json.dumps(v, separators=(",", ":")) + "\n")
+    # burst schedules for the end of the pipeline (FollowBatch_Gen): those in which a time-flushed partial batch is
+    # followed by more lines first, spread over the shapes
+    bvec_path = os.path.join(run.scratch, "c15-burst-vectors.ndjson")
+    btotal, bchosen = 0, []
+    for g, r in zip(bgens, bres):
+        if r.violated or r.errors:
+            raise Inconclusive("FollowBatch_Gen %s: %s %s\n%s" % (g, r.violated, r.errors[:3], r.out[-2000:]))
+        vs = {json.dumps(v, sort_keys=True): v for v in vfj_lines(r.out)}
+        vs = [vs[k] for k in sorted(vs)]
+        btotal += len(vs)
+        if len(vs) < 50:
+            raise Inconclusive("FollowBatch_Gen produced only %d schedules for %s" % (len(vs), g))
+        hot = [v for v in vs if v["timer"] > 0]
+        per_b = 60 if quick else 400
+        bchosen += stratified(rng, hot, min(len(hot), per_b * 3 // 4), burst_sig)
+        bchosen += stratified(rng, [v for v in vs if v["timer"] == 0 and len(v["steps"]) >= 2], per_b // 4, burst_sig)
+    with open(bvec_path, "w") as f:
+        for v in bchosen:
             f.write(json.dumps(v, separators=(",", ":")) + "\n")
     # histories with the phase of the poller's round at which every operation lands (FollowPoll_Gen), spread evenly
     # over the placement classes; half of them with an append in the stat window of a file that stays in place
@@ -273,6 +390,8 @@ def check(run):
     with open(pvec_path, "w") as f:
         for v in pchosen:
             f.write(json.dumps(v, separators=(",", ":")) + "\n")
+    bres_path = os.path.join(run.scratch, "c15-burst.json")
+    b_trace = os.path.join(run.scratch, "c15-burst-trace.ndjson")
     pres_path = os.path.join(run.scratch, "c15-phase.json")
     p_trace = os.path.join(run.scratch, "c15-phase-trace.ndjson")
     res_path = os.path.join(run.scratch, "c15-replay.json")
@@ -290,7 +409,25 @@ def check(run):
         lambda: run.drv(["cli", "-out", cli, "-bin", rare_bin, "-n", 3 if quick else 25], timeout=3000),
         lambda: run.drv(["phase", "-in", pvec_path, "-out", pres_path, "-trace", p_trace, "-reps", 1 if quick else 2,
                          "-par", 32, "-pd", 20], timeout=3000),
-    ], 4)
+        lambda: run.drv(["burst", "-in", bvec_path, "-out", bres_path, "-trace", b_trace, "-bin", rare_bin, "-par", 12,
+                         "-iv", 40, "-prod", 6 if quick else 40], timeout=3000),
+    ], 5)
+    br = json.load(open(bres_path))
+    run.cov["traces_validated_against_impl"] += br["runs"]
+    run.cov["evaluations"] += br["runs"]
+    run.cov["distinct_nontrivial"] += br["histories"]
+    run.cov["b1_burst_schedules_enumerated"] = btotal
+    run.cov["b1_burst_schedules_replayed"] = br["histories"]
+    run.cov["b1_burst_runs_with_timer_flush_followed_by_lines"] = br["runs_with_timer_flush_followed_by_lines"]
+    run.cov["b1_burst_unconfirmed_timeouts"] = br["flaky_timeouts"]
+    if bchosen:
+        run.sample({"b1_burst_schedule": next((v for v in bchosen if v["timer"] > 0), bchosen[0])})
+    for m in br["mismatches"] or []:
+        o, v = m["outcome"], m["vector"]
+        run.violation("b1:burst:%s:%s:%s" % (m["mode"], o["kind"], o["shape"] or "-"),
+                      "end of the follow pipeline (%s, batch size %d), schedule %s: %s at step %d - %s; the held batches read %s, "
+                      "the lines appended are %s" % (m["mode"], v["batch"], burst_sig(v), o["kind"], o["step"], o["detail"],
+                                                     o["got"], o["want"]), m)
     pr = json.load(open(pres_path))
     run.cov["traces_validated_against_impl"] += pr["runs"]
     run.cov["evaluations"] += pr["runs"]
@@ -365,6 +502,20 @@ def check(run):
             run.violation("b2:%s:%s:%s:%s" % (name, mode, ev["event"], "+".join(before)),
                           "recorded execution (%s, %s) is not a behaviour of Follow.tla: rejected record %s after %s" % (
                               name, mode, json.dumps(ev)[:200], before), p)
+    # the executions at the end of the pipeline against FollowBatch's laws on the observation
+    if not any('"event":"reset"' in line for line in open(b_trace)):
+        raise Inconclusive("no traces recorded (burst)")
+    r_, r = validate_traces(run, "FollowBatch_Trace", b_trace, label="FollowBatch_Trace")
+    events += r_["consumed"]
+    blines = open(b_trace).read().splitlines()
+    for bad in r_["bad"]:
+        sl = trace_slice(b_trace, bad["t"])
+        head = json.loads(sl.splitlines()[0])
+        ev = json.loads(blines[bad["l"] - 1])
+        p = run.save_replay("trace-burst-%d.ndjson" % bad["t"], sl)
+        run.violation("b2:burst:%s:%s:%s" % (head["sink"], "plain" if head["plain"] else "reopen", ev["event"]),
+                      "recorded execution at the end of the follow pipeline (%s, batch size %d) is not a behaviour of FollowBatch: "
+                      "rejected record %s" % (head["sink"], head["batch"], json.dumps(ev)[:300]), p)
     run.cov["b2_events"] = events
     run.cov["rule"] = ("B3: all behaviours of FollowNotify/FollowPoll within the listed bounds; B1: histories enumerated by TLC from "
                        "Follow_Gen (seeded sample, half of them with removal+re-creation+append between two reads), each executed "
